@@ -353,9 +353,9 @@ def scatter_body(ctx, case):
 
 
 LAWS = [
-    given_law("circle_exact", circle_exact_cases(), circle_exact_body, {"quick": 1500, "thorough": 6000}),
-    given_law("circle_float", circle_float_cases(), circle_float_body, {"quick": 1500, "thorough": 8000}),
+    given_law("circle_exact", circle_exact_cases(), circle_exact_body, {"quick": 1500, "thorough": 15000}, shards={"quick": 3, "thorough": 16}),
+    given_law("circle_float", circle_float_cases(), circle_float_body, {"quick": 1500, "thorough": 20000}, shards={"quick": 3, "thorough": 16}),
     Law("circle_enum", circle_enum_run, replay=circle_enum_replay, shards={"quick": 10, "thorough": 14}),
-    given_law("select", select_cases(), select_body, {"quick": 800, "thorough": 5000}),
-    given_law("scatter", scatter_cases(), scatter_body, {"quick": 500, "thorough": 3000}),
+    given_law("select", select_cases(), select_body, {"quick": 800, "thorough": 12500}, shards={"quick": 3, "thorough": 16}),
+    given_law("scatter", scatter_cases(), scatter_body, {"quick": 500, "thorough": 7500}, shards={"quick": 3, "thorough": 16}),
 ]
